@@ -1060,6 +1060,10 @@ func (w *World) verifyFunctionMode(fc *FuncContract, splitVal *uint64, tag strin
 	}
 	c := w.newCtx(res.Name, fc.Props)
 	c.bmc = bmc
+	c.noSafety = fc.NoSafety
+	if fc.NoSafety {
+		c.abstracted("run-time safety obligations of this function are assumed (nosafety): only its contract clauses are proved")
+	}
 	defer func() {
 		res.Abstracts = c.abstracts
 		res.Notes = c.notes
